@@ -356,9 +356,11 @@ fn roundtrip_inner(n: &Norm) -> Outcome {
     }
 }
 
-/// (clause, message, file bytes) of a failing normal form
-fn failure(n: &Norm) -> Option<(String, String, Vec<u8>)> {
-    match roundtrip(n) {
+type Failure = (String, String, Vec<u8>);
+
+/// (clause, message, file bytes) of a failing outcome
+fn as_failure(o: Outcome) -> Option<Failure> {
+    match o {
         Outcome::Same => None,
         Outcome::Differs(v, bytes) => {
             let all = v.iter().map(|m| m.clause).collect::<Vec<_>>().join(",");
@@ -368,6 +370,10 @@ fn failure(n: &Norm) -> Option<(String, String, Vec<u8>)> {
         Outcome::LoadError(e, bytes) => Some(("load_err".into(), format!("from_bytes failed on the engine's own output: {e}"), bytes)),
         Outcome::Panic(sig, msg) => Some((sig, msg, Vec::new())),
     }
+}
+
+fn failure(n: &Norm) -> Option<Failure> {
+    as_failure(roundtrip(n))
 }
 
 // ------------------------------------------------------------------------------------------------ key attribution
@@ -397,9 +403,9 @@ enum Step {
 const STEPS: [Step; 15] = [
     Step::Prep,
     Step::Bom,
+    Step::MultiRow,
     Step::Pad,
     Step::FullWidthRow,
-    Step::MultiRow,
     Step::EmptyRow,
     Step::C0Glyph,
     Step::HighChar,
@@ -648,9 +654,9 @@ fn candidates(s: Step, n: &Norm, protect_bom: bool) -> Vec<Norm> {
 /// Greedy attribution: the features are taken out one after the other in a fixed order; a removal is kept when the case
 /// still fails, otherwise the feature is needed. Needed features are tried again on the reduced case until nothing
 /// changes. The key names the violated clause of the reduced case and the features it needs.
-fn attribute(n0: &Norm) -> Option<(String, String)> {
+fn attribute(n0: &Norm, fail0: &Failure) -> (String, String) {
     let mut cur = n0.clone();
-    let mut fail = failure(&cur)?;
+    let mut fail = fail0.clone();
     let mut needed: Vec<Step> = Vec::new();
     let mut protect_bom = false;
     let mut todo: Vec<Step> = STEPS.to_vec();
@@ -713,7 +719,7 @@ fn attribute(n0: &Norm) -> Option<(String, String)> {
     };
     let cut = bytes.len().min(240);
     let red = format!("reduced witness: prep={} rows={} -> {}; file[..{cut}]=\"{}\"", cur.prep, compact_rows(&cur), msg, icyv::util::escape(&bytes[..cut]));
-    Some((key, red))
+    (key, red)
 }
 
 fn compact_rows(n: &Norm) -> String {
@@ -747,8 +753,8 @@ fn attr_changes_max(n: &Norm) -> usize {
 
 fn check(c: &Case) -> Verdict {
     let n = normalize(c);
-    match roundtrip(&n) {
-        Outcome::Same => {
+    match as_failure(roundtrip(&n)) {
+        None => {
             let full = n.rows.iter().any(|r| r.len() == n.w);
             let attr = attr_changes_max(&n) >= 3;
             let class = format!("prep{}/{}", n.prep, match (full, attr) {
@@ -759,25 +765,23 @@ fn check(c: &Case) -> Verdict {
             });
             Verdict::pass(full || attr, class)
         }
-        _ => match attribute(&n) {
-            Some((key, red)) => {
-                let (clause, msg, bytes) = failure(&n).unwrap_or_default();
-                let cut = bytes.len().min(160);
-                Verdict::fail(
-                    key,
-                    format!(
-                        "{} ({}), prep={}, {}x{}: {clause}: {msg}; file[..{cut}]=\"{}\"; {red}",
-                        FMTS[n.fmt].0,
-                        ext_of(n.fmt, n.alt),
-                        n.prep,
-                        n.w,
-                        n.rows.len(),
-                        icyv::util::escape(&bytes[..cut])
-                    ),
-                )
-            }
-            None => Verdict::fail(format!("{}|unstable", FMTS[n.fmt].0), "round trip failed once and passed when repeated"),
-        },
+        Some(fail) => {
+            let (key, red) = attribute(&n, &fail);
+            let (clause, msg, bytes) = fail;
+            let cut = bytes.len().min(160);
+            Verdict::fail(
+                key,
+                format!(
+                    "{} ({}), prep={}, {}x{}: {clause}: {msg}; file[..{cut}]=\"{}\"; {red}",
+                    FMTS[n.fmt].0,
+                    ext_of(n.fmt, n.alt),
+                    n.prep,
+                    n.w,
+                    n.rows.len(),
+                    icyv::util::escape(&bytes[..cut])
+                ),
+            )
+        }
     }
 }
 
@@ -907,7 +911,7 @@ fn main() {
          ATASCII: 0x01..=0x1A and 0x20..=0x7C, i.e. without ESC, the cursor codes 0x1C..0x1F and 0x7D..0x7F), illegal characters replaced by letters by construction; attributes foreground 0..=15 x background 0..=7 per run \
          (ASCII: none; ATASCII: normal / inverse); screen preparation None / ClearScreen / Home uniformly; SaveOptions::new() with lossles_output=true; a 1% share of Ctrl-A / Renegade / ASCII buffers starts with the CP437 characters EF BB BF. \
          Non-trivial: at least one full-width row or at least 3 attribute changes inside one row; distinct by hash of the case. Failure key = format | first violated clause (char, bg, fg, size, save_err, load_err) of the reduced case | \
-         input features the reduced case needs: the features prep_cls/prep_home, utf8_bom_prefix, explicit_trailing_blanks, full_width_row, multirow, empty_row, c0_glyph, high_char, blank_cell, code_like_char (hex digits, X), \
+         input features the reduced case needs: the features prep_cls/prep_home, utf8_bom_prefix, multirow (no single row and no two joined neighbouring rows fail), explicit_trailing_blanks, full_width_row, empty_row, c0_glyph, high_char, blank_cell, code_like_char (hex digits, X), \
          high_fg, bg_color (ATASCII: inverse), fg_color, long_run (> 3 equal cells), equal_chars are removed greedily in this fixed order; a removal is kept while the case still fails, a feature is named when its removal makes the case pass.",
     );
     eng.assume("a cell shows palette RGB of its foreground (entry+8 when bold and entry<8) and background as Buffer::render_to_rgba does; saved colours are the entries of the DOS default palette");
